@@ -279,7 +279,7 @@ double SQuIDS::GetExpectationValue(SU_vector op, unsigned int nrh, unsigned int 
 SU_vector SQuIDS::GetIntermediateState(unsigned int nrh, double xi) const{
   //find bracketing state entries
   auto xit=std::lower_bound(x.begin(),x.end(),xi);
-  if(xit==x.end())
+  if(xit==x.end() || xi<x.front())
     throw std::runtime_error("SQUIDS::GetExpectationValueD : x value not in the array.");
   if(xit!=x.begin())
     xit--;
@@ -312,7 +312,7 @@ double SQuIDS::GetExpectationValueD(const SU_vector& op, unsigned int nrh, doubl
                                     SQuIDS::expectationValueDBuffer& buf) const{
   //find bracketing state entries
   auto xit=std::lower_bound(x.begin(),x.end(),xi);
-  if(xit==x.end())
+  if(xit==x.end() || xi<x.front())
     throw std::runtime_error("SQUIDS::GetExpectationValueD : x value not in the array.");
   if(xit!=x.begin())
     xit--;
@@ -334,7 +334,7 @@ double SQuIDS::GetExpectationValueD(const SU_vector& op, unsigned int nrh, doubl
                                     double scale, std::vector<bool>& avr) const{
   //find bracketing state entries
   auto xit=std::lower_bound(x.begin(),x.end(),xi);
-  if(xit==x.end())
+  if(xit==x.end() || xi<x.front())
     throw std::runtime_error("SQUIDS::GetExpectationValueD : x value not in the array.");
   if(xit!=x.begin())
     xit--;
